@@ -58,7 +58,7 @@ package protowire
 //@   ensures payload: forall k :: 0 <= k && k < len(v) ==> r[len(b)+vsize(uint64(len(v)))+k] == old(v[k])
 //@   ensures inplace: len(b) + vsize(uint64(len(v))) + len(v) <= cap(b) ==> same(r, b) && cap(r) == cap(b)
 //@   ensures grown: len(b) + vsize(uint64(len(v))) + len(v) > cap(b) ==> fresh(r)
-//@   modifies b[len(b):len(b)+vsize(uint64(len(v)))+len(v)] if len(b) + vsize(uint64(len(v))) + len(v) <= cap(b)
+//@   modifies b[len(b):cap(b)]      // the spare capacity may be written even when the result is a new array: the length varint is appended first and may still fit
 //@   split len(b) + vsize(uint64(len(v))) + len(v) <= cap(b)
 //@ end
 
